@@ -102,6 +102,11 @@ impl<CS: CLCiphersuite> Signature<CL03<CS>> {
             return false;
         }
 
+        // v is a residue modulo N: only its canonical representative is accepted
+        if sign.v < 0 || sign.v >= pk.N {
+            return false;
+        }
+
         let lhs = Integer::from(sign.v.pow_mod_ref(&sign.e, &pk.N).unwrap());
 
         let rhs = (Integer::from(a_bases.0[0].pow_mod_ref(&message.value, &pk.N).unwrap())
@@ -135,6 +140,11 @@ impl<CS: CLCiphersuite> Signature<CL03<CS>> {
         // attributes are lm-bit non-negative integers: (v * a_i^k, m_i + k * e) satisfies the equation for every k
         let max_m = Integer::from(2).pow(CS::lm);
         if messages.iter().any(|m| m.value < 0 || m.value >= max_m) {
+            return false;
+        }
+
+        // v is a residue modulo N: only its canonical representative is accepted
+        if sign.v < 0 || sign.v >= pk.N {
             return false;
         }
 
